@@ -3191,6 +3191,84 @@ def _append_loops(tree):
     return tree
 
 
+def _completed_before(stmt, use):
+    """the Call / Subscript-store / comprehension nodes of a simple statement whose evaluation is complete before the name node `use` is
+    read (fields in evaluation order; the value of an assignment before its targets), or None when `use` sits where evaluation is
+    conditional, repeated or in another scope (conditional expression, boolean operator, comprehension, lambda)"""
+    done = []
+    found = [False]
+    bad = [False]
+
+    def walk(n, guarded):
+        if found[0]:
+            return
+        if n is use:
+            found[0] = True
+            bad[0] = guarded
+            return
+        if isinstance(n, ast.Assign):
+            walk(n.value, guarded)
+            for t_ in n.targets:
+                walk(t_, guarded)
+            return
+        g = guarded or isinstance(n, (ast.IfExp, ast.BoolOp, ast.ListComp, ast.SetComp, ast.DictComp, ast.GeneratorExp, ast.Lambda)) or \
+            (isinstance(n, ast.Compare) and len(n.ops) > 1)
+        for c in ast.iter_child_nodes(n):
+            walk(c, g)
+            if found[0]:
+                return
+        if isinstance(n, (ast.Call, ast.Await, ast.Yield, ast.YieldFrom, ast.NamedExpr)):
+            done.append(n)
+    walk(stmt, False)
+    if not found[0] or bad[0]:
+        return None
+    return done
+
+
+def _single_use_temps(tree):
+    """t = E; <simple statement reading t once>  ->  the statement with E written in place of t, when t occurs nowhere else in the
+    function and nothing with an effect (no call) is evaluated between E and the place t is read: a value held in a name for one line"""
+    for fn in [n for n in ast.walk(tree) if isinstance(n, (ast.FunctionDef, ast.AsyncFunctionDef))]:
+        if any(isinstance(x, (ast.Global, ast.Nonlocal)) for x in ast.walk(fn)) or \
+                any(isinstance(x, ast.Call) and isinstance(x.func, ast.Name) and x.func.id in ("locals", "vars", "eval", "exec") for x in ast.walk(fn)):
+            continue
+        counts = {}
+        for x in ast.walk(fn):
+            if isinstance(x, ast.Name):
+                counts[x.id] = counts.get(x.id, 0) + 1
+        params = {a.arg for a in ast.walk(fn.args) if isinstance(a, ast.arg)}
+
+        def block(stmts):
+            out = []
+            for s_ in stmts:
+                for f_ in ("body", "orelse", "finalbody"):
+                    b = getattr(s_, f_, None)
+                    if isinstance(b, list) and b and isinstance(b[0], ast.stmt) and not isinstance(s_, (ast.FunctionDef, ast.AsyncFunctionDef, ast.ClassDef)):
+                        setattr(s_, f_, block(b))
+                for h in getattr(s_, "handlers", None) or []:
+                    h.body = block(h.body)
+                prev = out[-1] if out else None
+                if isinstance(prev, ast.Assign) and len(prev.targets) == 1 and isinstance(prev.targets[0], ast.Name) and isinstance(s_, (ast.Assign, ast.Expr, ast.Return, ast.AugAssign)):
+                    t = prev.targets[0].id
+                    uses = [x for x in ast.walk(s_) if isinstance(x, ast.Name) and x.id == t]
+                    if counts.get(t) == 2 and t not in params and len(uses) == 1 and isinstance(uses[0].ctx, ast.Load) \
+                            and isinstance(prev.value, (ast.Call, ast.BinOp, ast.Subscript, ast.Attribute, ast.UnaryOp, ast.Compare)) \
+                            and not any(isinstance(z, (ast.Yield, ast.YieldFrom, ast.Await, ast.NamedExpr, ast.Lambda)) for z in ast.walk(prev.value)):
+                        before = _completed_before(s_, uses[0])
+                        if before is not None and not before:
+                            use = uses[0]
+
+                            class _S(ast.NodeTransformer):
+                                def visit_Name(self, x):
+                                    return prev.value if x is use else x
+                            out[-1] = ast.copy_location(_S().visit(s_), prev)
+                            continue
+                out.append(s_)
+            return out
+        fn.body = block(fn.body)
+    return tree
+
+
 def _sans_doc(body):
     if body and isinstance(body[0], ast.Expr) and isinstance(body[0].value, ast.Constant) and isinstance(body[0].value.value, str):
         return body[:1], body[1:]
@@ -3222,14 +3300,26 @@ def _thin_wrappers(tree):
     return tree
 
 
+def _alias_prepass(tree):
+    """param_aliases for every function, whether or not the partial evaluator gets through it afterwards"""
+    for fn in [n for n in ast.walk(tree) if isinstance(n, (ast.FunctionDef, ast.AsyncFunctionDef))]:
+        ps = {a.arg for a in fn.args.posonlyargs + fn.args.args + fn.args.kwonlyargs}
+        try:
+            fn.body = param_aliases(fn.body, ps) or fn.body
+        except Exception:
+            pass
+    return tree
+
+
 def desugar(trees):
     """normalise {modname: ast.Module} in place; returns the statistics"""
     if os.environ.get("VERIF_NODESUGAR"):
         return {}
     for k_, t_ in trees.items():
+        _alias_prepass(t_)
         if not any(isinstance(n_, (ast.FunctionDef, ast.ClassDef)) and n_.name == "float" for n_ in ast.walk(t_)):
             trees[k_] = ast.fix_missing_locations(_DropFloat().visit(t_))
-        trees[k_] = ast.fix_missing_locations(_append_loops(_thin_wrappers(_Spelling(trees[k_]).visit(trees[k_]))))
+        trees[k_] = ast.fix_missing_locations(_append_loops(_single_use_temps(_thin_wrappers(_Spelling(trees[k_]).visit(trees[k_])))))
     d = Desugar(trees)
     st = d.run()
     st["_desugarer"] = d
